@@ -188,11 +188,13 @@ type loopInfo struct {
 	modkeys map[string]*Sort
 	phiNew  map[*ssa.Phi]*Val
 	envAt   *loopEnv
+	preState *State
 }
 
 type loopEnv struct {
 	phis map[string]*Val // by source name
 	iter *Term
+	pre  *State // heap state at loop entry (before the havoc)
 }
 
 type deferSite struct {
@@ -712,6 +714,7 @@ func dupPredBefore(b *ssa.BasicBlock, pi int) bool {
 // loop header: check invariants on entry, havoc, assume invariants.
 func (f *Frame) enterLoop(li *loopInfo, b *ssa.BasicBlock) {
 	e := f.E
+	li.preState = f.st
 	li.modkeys = f.loopModKeys(li)
 	if _, unknown := li.modkeys["*"]; unknown {
 		e.fail("loop %d of %s calls code with unknown effects (function values); those callees need contracts", li.ordinal, f.Fn)
@@ -899,7 +902,7 @@ func (f *Frame) clauseProps(cl *Clause) []string {
 
 // loopEnvFor builds the name environment at a loop header; over replaces phi values.
 func (f *Frame) loopEnvFor(li *loopInfo, over map[*ssa.Phi]*Val) *loopEnv {
-	env := &loopEnv{phis: map[string]*Val{}}
+	env := &loopEnv{phis: map[string]*Val{}, pre: li.preState}
 	// enclosing loops first (outer phis visible by name), then this loop
 	var chain []*loopInfo
 	for _, l := range f.loopList {
